@@ -10,6 +10,8 @@ input (stdin):
   endfunc
   lower <0|1>                     print `simplifyFunc` of every function read so far (1 = rounding fix variant)
   run <entry> <hex a0..a3>        MirCore on the program as written; entry is `f (p buf, i64 a0..a3)`
+  ecall <entry> <hex args>        the same for an entry that takes exactly these integer arguments
+  ecalls <0|1> <entry> <hex args> … on the model-simplified program
   runs <entry> <hex a0..a3>       MirCore on the model-simplified program
   reset                           forget all functions
 output: for `run`: `P <entry> <res hex> log<n>`, `M <hex bytes of the 576-byte buffer>`, `L <id>:<a>,<b>,<c>,<d> ...`
@@ -260,12 +262,13 @@ structure DState where
   funcs : List (Func String × List String) := []   -- with declared locals
   cur : Option (Func String × List String × List (Insn String)) := none   -- body reversed
 
-def runEntry {ρ : Type} [DecidableEq ρ] (P : Prog ρ) (mk : String → ρ) (entry : String) (args : List W64) : String :=
+def runEntry {ρ : Type} [DecidableEq ρ] (P : Prog ρ) (mk : String → ρ) (entry : String) (args : List W64)
+    (withBuf : Bool := true) : String :=
   match findFunc P entry with
   | none => s!"X {entry} no-such-function"
   | some f =>
     let g0 : G DMem := { mem := initMem, sp := BitVec.ofNat 64 STK_BASE, log := [] }
-    let av := BitVec.ofNat 64 (BUF_BASE + 32) :: args
+    let av := if withBuf then BitVec.ofNat 64 (BUF_BASE + 32) :: args else args
     let ps := f.params.take av.length
     match enter (ρ := ρ) [] ps (av.take ps.length) g0 with
     | .error e => s!"X {entry} {repr e}"
@@ -305,6 +308,12 @@ def step (st : DState) (toks : List String) : DState × Option String :=
   | "run" :: entry :: args =>
     let P : Prog String := st.funcs.map (·.1)
     (st, some (runEntry P id entry (args.map fun h => BitVec.ofNat 64 (parseHexN h))))
+  | "ecall" :: entry :: args =>
+    let P : Prog String := st.funcs.map (·.1)
+    (st, some (runEntry P id entry (args.map fun h => BitVec.ofNat 64 (parseHexN h)) false))
+  | "ecalls" :: v :: entry :: args =>
+    let P : Prog R := st.funcs.map fun (f, _) => simplifyFunc (v == "1") f
+    (st, some (runEntry P R.user entry (args.map fun h => BitVec.ofNat 64 (parseHexN h)) false))
   | "runs" :: v :: entry :: args =>
     let P : Prog R := st.funcs.map fun (f, _) => simplifyFunc (v == "1") f
     (st, some (runEntry P R.user entry (args.map fun h => BitVec.ofNat 64 (parseHexN h))))
